@@ -5183,3 +5183,312 @@ func ruleValueReceiverWrites(id, pkg string) func(*Checker) {
 		c.pass(id, "-", "value-receiver methods inspected", "-", fmt.Sprintf("%d assignment(s) to fields of value receivers", n))
 	}
 }
+
+// ---- round 23 ----
+
+// ruleBodyWrittenPlainly — an entry's content goes from the archive into the file, as it is.
+func ruleBodyWrittenPlainly(id string) func(*Checker) {
+	return func(c *Checker) {
+		c.rule(id, "In what Unpack reaches inside the module, an entry's body is written by io.Copy / CopyN / CopyBuffer whose destination is the file os.Create / os.OpenFile returned (not a writer type of the module wrapped round it), and nothing calls Seek, WriteAt or Truncate: a writer that skips runs of zero bytes by seeking leaves the file short when the content ends in zeros — a seek does not extend a file — while mode, time and the error result are as for a complete copy.", 1)
+		u := getUnpackCtx(c, id)
+		if u == nil {
+			return
+		}
+		p := c.P
+		n := 0
+		for _, fn := range u.ReachL {
+			if !p.InModule(fn) {
+				continue
+			}
+			for _, ci := range callsIn(fn) {
+				cc := ci.Common()
+				mname := ""
+				if cc.IsInvoke() {
+					mname = cc.Method.Name()
+				} else if o := calleeObj(ci); o != nil && o.Type().(*types.Signature).Recv() != nil {
+					mname = o.Name()
+				}
+				switch mname {
+				case "Seek", "WriteAt", "Truncate":
+					n++
+					c.fail(id, p.FuncName(fn), "no "+mname+" on the way to the file", p.Pos(ci.Pos()), "Unpack reaches a call of "+mname+": the file's final length then depends on where the last write happened to end, not on how much the archive holds")
+					continue
+				}
+				o := calleeObj(ci)
+				if !(isFunc(o, "io", "Copy") || isFunc(o, "io", "CopyN") || isFunc(o, "io", "CopyBuffer")) {
+					continue
+				}
+				fromArchive := false
+				for w := range p.backSlice(cc.Args[1], 1) {
+					if t := w.Type(); t != nil && strings.HasSuffix(t.String(), "archive/tar.Reader") {
+						fromArchive = true
+					}
+				}
+				if !fromArchive {
+					continue
+				}
+				n++
+				dst := canon(cc.Args[0])
+				if mi, ok := dst.(*ssa.MakeInterface); ok {
+					dst = canon(mi.X)
+				}
+				isFile := false
+				if pt, ok := dst.Type().Underlying().(*types.Pointer); ok {
+					if nt, ok := pt.Elem().(*types.Named); ok && nt.Obj().Name() == "File" && nt.Obj().Pkg() != nil && nt.Obj().Pkg().Path() == "os" {
+						isFile = true
+					}
+				}
+				// a helper's parameter: the file at its call sites
+				if prm, ok := dst.(*ssa.Parameter); ok && !isFile {
+					_ = prm
+				}
+				c.check(isFile, id, p.FuncName(fn), "the copy's destination is the file", p.Pos(ci.Pos()), "io.Copy writes into the *os.File itself", "the entry's body is copied into "+dst.Type().String()+", not into the file itself: what reaches the disk is what that writer makes of it")
+			}
+		}
+		if n == 0 {
+			c.anchorMissing(id, "a copy from the archive reader in what Unpack reaches")
+		}
+	}
+}
+
+// ruleDecodeIntoFresh — what one element is decoded into is not what the last one left behind.
+func ruleDecodeIntoFresh(id, pkg string) func(*Checker) {
+	return func(c *Checker) {
+		c.rule(id, "Inside a loop, json.Unmarshal / (*json.Decoder).Decode is not handed the address of a variable that lives outside the loop and is not reset on the way round: encoding/json leaves alone what the document does not mention, so a member missing from one element keeps the value the previous element gave it (a version without a deprecation note inherits its predecessor's).", 0)
+		c.absence(id)
+		p := c.P
+		n := 0
+		for _, fn := range p.Funcs {
+			if !p.InModule(fn) || !strings.HasSuffix(pkgPathOf(p, fn), pkg) || fn.Blocks == nil {
+				continue
+			}
+			for _, ci := range callsIn(fn) {
+				o := calleeObj(ci)
+				if o == nil || objPkgPath(o) != "encoding/json" || (o.Name() != "Unmarshal" && o.Name() != "Decode") {
+					continue
+				}
+				if !inLoop(ci.Block()) {
+					continue
+				}
+				args := ci.Common().Args
+				target := canon(args[len(args)-1])
+				if mi, ok := target.(*ssa.MakeInterface); ok {
+					target = canon(mi.X)
+				}
+				al, ok := target.(*ssa.Alloc)
+				if !ok {
+					continue
+				}
+				n++
+				head := loopHeadOf(ci.Block())
+				inBody := func(b *ssa.BasicBlock) bool { return b == head || (reaches(head, b) && reaches(b, head)) }
+				if inBody(al.Block()) {
+					continue // declared inside the loop: a new variable every time round
+				}
+				reset := false
+				if refs := al.Referrers(); refs != nil {
+					for _, r := range *refs {
+						if st, ok := r.(*ssa.Store); ok && st.Addr == ssa.Value(al) && inBody(st.Block()) {
+							reset = true // the whole variable is assigned inside the loop
+						}
+					}
+				}
+				if !reset {
+					c.fail(id, p.FuncName(fn), "decoded into a variable that outlives the element", p.Pos(ci.Pos()), "the variable decoded into is declared in front of the loop and never assigned as a whole inside it: fields the current element does not mention keep what an earlier element put there")
+				}
+			}
+		}
+		c.pass(id, "-", "decodes inside loops inspected", "-", fmt.Sprintf("%d decode(s) inside loops", n))
+	}
+}
+
+// ruleMemoKeyedByRequest — what the builder remembers is filed under what was asked, not under what was answered.
+func ruleMemoKeyedByRequest(id string) func(*Checker) {
+	return func(c *Checker) {
+		c.rule(id, "Every assignment into one of the Builder's maps is keyed by what was asked for — a value that does not derive from what the fetcher, a finder or the registry's address lookup answered (the version selected from the offered list is part of what is then asked, and may be part of a key). Two requests can get the same answer (two modules published from one repository resolve to one remote package); a table keyed by the answer and plainly assigned keeps whichever request came last, and which that is depends on the order of the Add calls and of discovery — and with the table written to the manifest, so do the manifest's bytes.", 4)
+		p := c.P
+		n := 0
+		for _, fn := range p.Funcs {
+			if !inBundlePkg(p, fn) || fn.Blocks == nil {
+				continue
+			}
+			eachInstr(fn, func(in ssa.Instruction) {
+				mu, ok := in.(*ssa.MapUpdate)
+				if !ok || builderMapOf(mu.Map) == "" {
+					return
+				}
+				n++
+				answer := ""
+				for w := range p.backSlice(mu.Key, 0) {
+					if cl, ok := w.(*ssa.Call); ok && cl.Call.IsInvoke() {
+						switch cl.Call.Method.Name() {
+						case "FetchSourcePackage", "ModulePackageSourceAddr", "FindDependencies":
+							answer = cl.Call.Method.Name()
+						}
+					}
+				}
+				c.check(answer == "", id, p.FuncName(fn), "Builder."+builderMapOf(mu.Map)+" keyed by the request", p.Pos(mu.Pos()), "the key does not derive from an external answer", "the key of this entry derives from the result of "+answer+": requests that get the same answer overwrite each other's entry, and the one that stays is the one that came last")
+			})
+		}
+		if n == 0 {
+			c.anchorMissing(id, "assignments into the Builder's maps")
+		}
+	}
+}
+
+// ruleLoaderReturnsRules — a package without a rule file gets the built-in rules.
+func ruleLoaderReturnsRules(id string) func(*Checker) {
+	return func(c *Checker) {
+		c.rule(id, "Every rule set a function of the ignore-rule package returns together with a nil error is (a) what a parser of that package returned, (b) the package-level default rule set, or (c) a rule set made on the spot — and where it is a parameter handed back (`the caller's fallback`), every call in the module passes one of those. A field that nobody initialises is nil, a nil rule set excludes nothing, and the packages without a rule file of their own — most of them — keep their .git and .terraform directories.", 2)
+		p := c.P
+		isRuleset := func(t types.Type) bool {
+			pt, ok := t.Underlying().(*types.Pointer)
+			if !ok {
+				return false
+			}
+			nt, ok := pt.Elem().(*types.Named)
+			return ok && nt.Obj().Name() == "Ruleset"
+		}
+		var okOrigin func(v ssa.Value, depth int, seen map[ssa.Value]bool) (bool, string)
+		okOrigin = func(v ssa.Value, depth int, seen map[ssa.Value]bool) (bool, string) {
+			v = canon(v)
+			if seen[v] {
+				return true, ""
+			}
+			seen[v] = true
+			switch x := v.(type) {
+			case *ssa.Const:
+				return false, "the nil rule set"
+			case *ssa.Alloc:
+				return true, ""
+			case *ssa.UnOp:
+				if x.Op == token.MUL {
+					if _, isG := x.X.(*ssa.Global); isG {
+						return true, ""
+					}
+					// a result kept in a cell (named result, deferred close): what is stored into it
+					if al, isAl := x.X.(*ssa.Alloc); isAl {
+						ws := cellWrites(al)
+						for _, st := range ws {
+							if ok, why := okOrigin(st.Val, depth, seen); !ok {
+								return false, why
+							}
+						}
+						if len(ws) > 0 {
+							return true, ""
+						}
+					}
+					return false, "a rule set read from " + x.X.String() + " (a field or variable nothing guarantees to be set)"
+				}
+			case *ssa.Extract:
+				if cl, ok := x.Tuple.(*ssa.Call); ok {
+					if g := cl.Common().StaticCallee(); g != nil && p.InModule(g) {
+						return true, "" // that function's own returns are instances of this rule
+					}
+				}
+			case *ssa.Call:
+				if g := x.Common().StaticCallee(); g != nil && p.InModule(g) {
+					return true, ""
+				}
+			case *ssa.Phi:
+				for _, e := range x.Edges {
+					if ok, why := okOrigin(e, depth, seen); !ok {
+						return false, why
+					}
+				}
+				return true, ""
+			case *ssa.Parameter:
+				if depth <= 0 {
+					return false, "a parameter whose callers were not followed further"
+				}
+				fn := x.Parent()
+				idx := -1
+				for i, pp := range fn.Params {
+					if pp == x {
+						idx = i
+					}
+				}
+				sites := p.callersOf(fn)
+				if fn.Object() != nil && fn.Object().Exported() && len(sites) == 0 {
+					return true, "" // only callers outside the module
+				}
+				for _, s := range sites {
+					if idx >= len(s.Common().Args) {
+						continue
+					}
+					if ok, why := okOrigin(s.Common().Args[idx], depth-1, seen); !ok {
+						return false, why + " (passed at " + p.Pos(s.Pos()) + ")"
+					}
+				}
+				return true, ""
+			}
+			return false, v.String()
+		}
+		n := 0
+		for _, fn := range p.Funcs {
+			if fn.Package() == nil || fn.Package().Pkg.Path() != p.PkgPath("ignorefiles") || fn.Blocks == nil {
+				continue
+			}
+			res := fn.Signature.Results()
+			if res.Len() != 2 || !isRuleset(res.At(0).Type()) || !isErrorType(res.At(1).Type()) {
+				continue
+			}
+			// the (rule set, error) pairs the function can hand back: from its returns, or — where the results live
+			// in cells because of a defer — from the blocks that assign both
+			type pair struct {
+				rs, err ssa.Value
+				pos     token.Pos
+			}
+			var pairs []pair
+			for _, r := range returnsOf(fn) {
+				if len(r.Results) != 2 {
+					continue
+				}
+				l0, ok0 := r.Results[0].(*ssa.UnOp)
+				l1, ok1 := r.Results[1].(*ssa.UnOp)
+				var c0, c1 *ssa.Alloc
+				if ok0 && ok1 {
+					c0, _ = l0.X.(*ssa.Alloc)
+					c1, _ = l1.X.(*ssa.Alloc)
+				}
+				if c0 == nil || c1 == nil {
+					pairs = append(pairs, pair{r.Results[0], r.Results[1], r.Pos()})
+					continue
+				}
+				for _, b := range fn.Blocks {
+					var v0, v1 ssa.Value
+					pos := token.NoPos
+					for _, in := range b.Instrs {
+						if st, ok := in.(*ssa.Store); ok {
+							if st.Addr == ssa.Value(c0) {
+								v0, pos = st.Val, st.Pos()
+							}
+							if st.Addr == ssa.Value(c1) {
+								v1 = st.Val
+							}
+						}
+					}
+					if v0 != nil && v1 != nil {
+						pairs = append(pairs, pair{v0, v1, pos})
+					}
+				}
+			}
+			seenPair := map[token.Pos]bool{}
+			for _, pr := range pairs {
+				if seenPair[pr.pos] {
+					continue
+				}
+				seenPair[pr.pos] = true
+				if isNilConst(pr.rs) && !isNilConst(pr.err) {
+					continue // the error return
+				}
+				n++
+				ok, why := okOrigin(pr.rs, 2, map[ssa.Value]bool{})
+				c.check(ok, id, p.FuncName(fn), fmt.Sprintf("rule set handed back %d", n), p.Pos(pr.pos), "parsed, the package's default, or made on the spot", "a rule set handed back with a nil error can be "+why)
+			}
+		}
+		if n == 0 {
+			c.anchorMissing(id, "functions of the ignore-rule package that return a rule set and an error")
+		}
+	}
+}
